@@ -47,6 +47,16 @@ FragMovie ==
                  << [ track |-> 1, base |-> "none", tfhdDur |-> Some(<<4>>), tfdt |-> <<1, 0, 0, 0, 0>>, tfdtV |-> 1,
                       durs |-> None, sizes |-> <<3, 2>>, cts |-> Some(<<<<1>>, <<2>>>>), trunV |-> 0 ] >> >> ]
 
+\* a fragmented movie whose second run relies on the tfhd default sample size (no per-sample sizes)
+FragDefMovie ==
+  [ mts |-> <<3, 232>>,
+    tracks |-> << [kind |-> "avc", timescale |-> <<3, 232>>, trexDur |-> <<7>>] >>,
+    frags |-> << << [ track |-> 1, base |-> "moof", tfhdDur |-> None, tfdt |-> <<10>>, tfdtV |-> 0,
+                      durs |-> Some(<<<<2>>, <<3>>>>), sizes |-> <<2, 1>>, cts |-> None, trunV |-> 0 ] >>,
+                 << [ track |-> 1, base |-> "moof", tfhdDur |-> Some(<<4>>), tfdt |-> <<20>>, tfdtV |-> 0,
+                      durs |-> None, sizes |-> <<3, 3>>, cts |-> None, trunV |-> 0, defSize |-> Some(3) ] >> >> ]
+TheFragMovie == IF Base = "fragdef" THEN FragDefMovie ELSE FragMovie
+
 \* ---- where operations apply -----------------------------------------------------------
 IterTypes == {MOOV, TRAK, MDIA, MINF, STBL, DINF, UDTA, MVEX, MOOF, TRAF, AVC1, MP4A}
 SwapTypes == {MOOV, TRAK, MDIA, MINF, STBL, TRAF}
@@ -66,7 +76,7 @@ OpsAt(root, p) ==
            THEN {[op |-> "swap", path |-> p, i |-> i, j |-> j] : i \in 1..Len(n.kids), j \in 1..Len(n.kids)} \
                 {x \in {[op |-> "swap", path |-> p, i |-> i, j |-> j] : i \in 1..Len(n.kids), j \in 1..Len(n.kids)} : x.i >= x.j}
            ELSE {})
-     \cup (IF "swap" \in OpKinds /\ top /\ Base # "frag"
+     \cup (IF "swap" \in OpKinds /\ top /\ Base = "plain"
            THEN {[op |-> "swap", path |-> p, i |-> i, j |-> j] : i \in 2..Len(n.kids), j \in 2..Len(n.kids)} \
                 {x \in {[op |-> "swap", path |-> p, i |-> i, j |-> j] : i \in 2..Len(n.kids), j \in 2..Len(n.kids)} : x.i >= x.j}
            ELSE {})
@@ -74,10 +84,11 @@ OpsAt(root, p) ==
      \cup (IF "spare" \in OpKinds /\ ~top /\ n.leaf /\ n.t \in SpareTypes /\ n.spare = <<>>
            THEN {[op |-> "spare", path |-> p, len |-> 3]} ELSE {})
 
-BaseTree == IF Base = "frag" THEN FragTreeZero(FragMovie, "one") ELSE PlainTree(PlainMovie, ZeroOffsets(PlainMovie))
+IsFrag == Base \in {"frag", "fragdef"}
+BaseTree == IF IsFrag THEN FragTreeZero(TheFragMovie, "one") ELSE PlainTree(PlainMovie, ZeroOffsets(PlainMovie))
 Applicable(os) == Let(ApplyOps(BaseTree, os, 1), LAMBDA root : UNION {OpsAt(root, p) : p \in Paths(root)})
 
-RenderIt(os) == IF Base = "frag" THEN RenderFrag(FragMovie, "one", os).file ELSE RenderPlain(PlainMovie, os)
+RenderIt(os) == IF IsFrag THEN RenderFrag(TheFragMovie, "one", os).file ELSE RenderPlain(PlainMovie, os)
 ImgOf(bytes) == [start |-> <<>>, len |-> FromInt(Len(bytes)), segs |-> <<[off |-> <<>>, bytes |-> bytes]>>]
 
 \* what the specification's decoder reads back from a rendered layout, without the offsets
